@@ -18,6 +18,11 @@ C = {
    "Seeded simulation of cat/grep sessions with consumer stalls placed around end-of-file, delayed later commands, limiter queueing and "
    "schedule perturbation at the shutdown handshake; oracle: per file exactly-once in order, exit by itself with status 0 within a bound after the last stall.",
    "deterministic simulation: seeded schedules, stall faults at the consumer and between commands, exactly-once oracle + bounded liveness"),
+ "C03": ("exploration", "5 C03",
+   "Exhaustive enumeration of all match/non-match files up to 5 (quick) / 7 (thorough) lines x before/after/max in 0..3 x invert, plus seeded random files, "
+   "RE2 patterns and context values, each executed as a real dgrep session under a seeded schedule (5 % over SSH) and compared with a reference grep written from the statement. "
+   "Input-dominated property: the simulator contributes the reader/filter pipeline schedules; the small scope is exhaustive, the rest is sampled.",
+   "deterministic simulation executing exhaustive small-scope + seeded random inputs; reference-grep oracle"),
 }
 
 checks = []
